@@ -19,6 +19,7 @@ import (
 	"golang.org/x/crypto/ocsp"
 
 	"verif/corpus"
+	"verif/der"
 	"verif/gen"
 	"verif/mon"
 )
@@ -151,7 +152,9 @@ var c11Words = []string{"Organization", "CommonName", "Country", "Organizational
 	"PKI", "Operations", "Ben &amp; Jerry", c11LongOU, "Verif Test CA Org", "Example Org", "www.example.com", "Verif Issuing CA R1",
 	// country codes that are NOT assigned (user-assigned / exceptionally reserved code elements, an unassigned one):
 	// an option that widens or narrows what counts as a country only acts on an object that carries such a code
-	"XK", "ZZ", "AA", "QM", "EU", "UK", "YQ"}
+	"XK", "ZZ", "AA", "QM", "EU", "UK", "YQ",
+	// dates and durations, in the spellings configuration authors use
+	"2020-01-01", "2022-01-01", "2023-07-15", "2024-01-01T00:00:00Z", "20230101", "2023-07", "24h", "90d", "365"}
 
 const c11LongOU = "Department of Redundancy Department, Division of Overly Long Organisational Unit Names"
 
@@ -406,6 +409,19 @@ func c11BuildObjs(c *mon.Ctx) {
 		crl := gen.BasicCRL(gen.D(2024, 3, 1))
 		crl.NextUpdate = crl.ThisUpdate.Add(time.Duration(days) * 24 * time.Hour)
 		addDER(corpus.CRL, fmt.Sprintf("gen/cfg/crl%dd", days), crl.DER())
+	}
+	// CRLs whose entries were revoked over several years, with allowed and disallowed reason codes among them: an option
+	// that exempts, limits or orders entries by date only acts on a list that spans the date
+	for k, tu := range []time.Time{gen.D(2024, 3, 1), gen.D(2023, 8, 1)} {
+		crl := gen.BasicCRL(tu)
+		crl.Revoked = []*der.Node{
+			gen.Revoked(1001, gen.D(2019, 1, 1), gen.ExtReason(7)),
+			gen.Revoked(1002, gen.D(2021, 6, 1), gen.ExtReason(1)),
+			gen.Revoked(1003, gen.D(2023, 7, 20), gen.ExtReason(4)),
+			gen.Revoked(1004, tu.Add(-24*time.Hour), gen.ExtReason(2)),
+			gen.Revoked(1005, tu.Add(-time.Hour)),
+		}
+		addDER(corpus.CRL, fmt.Sprintf("gen/cfg/crl-years-%d", k), crl.DER())
 	}
 	// corpus sample incl. every CRL and OCSP seed
 	for i, o := range W.Objs {
